@@ -521,7 +521,7 @@ def csr_arrays(case):
 def make_cases(ctx, thorough):
     rng = ctx.rng
     cases = []
-    nmat = 420 if thorough else 110
+    nmat = 1500 if thorough else 110
     fixed = [([[0.1] * 10 for _ in range(10)], "tenths"), ([[1.0]], "single"), ([[1 / 3.0] * 3 for _ in range(3)], "thirds"),
              ([[0.5, 0.5, 0.0], [0.0, 0.5, 0.5], [0.25, 0.25, 0.5]], "small"),
              ([[1 / 7.0] * 7 for _ in range(7)], "sevenths"), ([[0.0, 1.0], [1.0, 0.0]], "flip")]
@@ -584,27 +584,34 @@ def make_cases(ctx, thorough):
                     # a sparse chain with a negative init once segfaulted: such cases run only in the bounds-checked interpreter
                     c["bc_only"] = vname != "dense" and any(i < 0 for i in inits)
                 cases.append(c)
-        # malformed stream: init out of range, bad ts / num_reps  (ValueError expected)
-        if rng.random() < 0.5:
-            kind = rng.choice(["sim_idx", "sim"])
-            bad = rng.choice(["init_hi", "init_lo", "arr_bad", "ts0", "reps_neg", "neg_sim"])
-            c = dict(P=[hx(r) for r in rows], sparse=rng.random() < 0.5, csr=None, mode=mode, variant="malformed:" + bad,
-                     kind=kind, ts=3, num_reps=None, ints=[0, 0, 0], init_form="int", init=0, stream=hx([0.5] * 40))
-            if bad == "init_hi":
-                c["init"] = n + rng.randrange(0, 2)
-            elif bad == "init_lo":
-                c["init"] = -n - 1
-            elif bad == "arr_bad":
-                c["init"], c["init_form"] = [0, n, 0], "list"
-            elif bad == "ts0":
-                c["ts"] = rng.choice([0, -1])
-            elif bad == "reps_neg":
-                c["num_reps"] = -1
-                c["init"] = rng.choice([None, 0])
-            elif bad == "neg_sim":
-                c["kind"] = "sim"
-                c["init"] = -1
-            cases.append(c)
+        # malformed stream: init out of range, bad ts / num_reps  (ValueError expected); every kind for a third of the matrices
+        if rng.random() < 0.34 or mode in ("small", "tenths", "flip", "single"):
+            for bad in ("init_n", "init_n1", "init_lo", "arr_bad_n", "arr_bad_lo", "ts0", "tsneg", "reps_neg", "neg_sim", "sim_n"):
+                kind = "sim" if bad in ("neg_sim", "sim_n") else "sim_idx"
+                c = dict(P=[hx(r) for r in rows], sparse=rng.random() < 0.5, csr=None, mode=mode, variant="malformed:" + bad,
+                         kind=kind, ts=3, num_reps=None, ints=[0, 0, 0], init_form="int", init=0, stream=hx([0.5] * 40))
+                if bad == "init_n":
+                    c["init"] = n
+                elif bad == "init_n1":
+                    c["init"] = n + 1
+                elif bad == "init_lo":
+                    c["init"] = -n - 1
+                elif bad == "arr_bad_n":
+                    c["init"], c["init_form"] = [0, n, 0], "list"
+                elif bad == "arr_bad_lo":
+                    c["init"], c["init_form"] = [0, -n - 1], "array"
+                elif bad == "ts0":
+                    c["ts"] = 0
+                elif bad == "tsneg":
+                    c["ts"] = -1
+                elif bad == "reps_neg":
+                    c["num_reps"] = -1
+                    c["init"] = rng.choice([None, 0])
+                elif bad == "neg_sim":
+                    c["init"] = -1
+                elif bad == "sim_n":
+                    c["init"] = n
+                cases.append(c)
     return cases
 
 
@@ -932,7 +939,10 @@ def run(ctx):
         if bc_only:
             inp["negative_init"] = True
         rows = stored_rows(c)
-        if res[0] == "ok":
+        if res[0] == "ok" and c["variant"].startswith("malformed"):
+            ctx.fail("accepted_invalid", "a call outside the documented domain (init outside [-n, n) / [0, n) for simulate, ts_length < 1, "
+                     "negative num_reps) did not raise ValueError", inp, res[:3], "ValueError")
+        elif res[0] == "ok":
             oracle_paths(ctx, c, res, rows, kind_override=override)
         elif res[0] in ("IndexError", "Other"):
             ctx.fail(override or ("oob_read" if res[0] == "IndexError" else "exception"),
